@@ -100,11 +100,17 @@ pub fn run_all(ctx: &mut Ctx, stream: &str) {
 		TwinU32, TwinU8, Named, Skipper, CompactFields, UsesCompactAs, Mixed, Tree, Chain, Transparent,
 		Generic<u8, u16>, Generic<String, TwinU32>, Vec<Mixed>, Option<Named>, Box<Chain>, Vec<Skipper>, BTreeMap<u8, Mixed>,
 		MelEnum, MelGen<u32>, MelGen<u64>, MelGen<u8>, Option<MelEnum>, [MelGen<u16>; 2], (MelEnum, CompactFields), Box<CompactFields>,
+		TransCompact, Box<TransCompact>, [TransCompact; 2], Rc<TransCompact>, Vec<Box<[TransCompact; 2]>>, Arc<TransCompact>,
+		TransEncodedAs, Box<TransEncodedAs>, [TransEncodedAs; 3], Option<Box<(u8, TransEncodedAs)>>,
+		TransSkip, Box<TransSkip>, [TransSkip; 2],
+		Result<u8, u64>, Result<(), u8>, Result<(), [u8; 32]>, Option<Result<u8, (u16, u16)>>, Result<u64, u8>, [Result<bool, u32>; 2],
 		Option<(u8, u16)>, Result<u32, (u8, u8)>, [(u8, bool); 3], Range<(u8, u8)>, Box<[u16; 4]>, Arc<(u8, u64)>, Rc<(u8, u64)>,
 	);
 	generated::run_generated(ctx, stream, f);
 	zerow!(ctx, stream, f; Vec<()>, VecDeque<()>, LinkedList<()>, Vec<UnitStruct>, Vec<PhantomData<u8>>, BTreeSet<()>,
-		Option<Vec<()>>, [(); 5], [UnitStruct; 3]);
+		Option<Vec<()>>, [(); 5], [UnitStruct; 3],
+		Vec<Box<()>>, Vec<AllSkipped>, VecDeque<Rc<()>>, (Vec<Box<()>>, u8, bool), BinaryHeap<Box<()>>, Vec<Arc<[u32; 0]>>,
+		Option<Vec<AllSkipped>>, LinkedList<Box<()>>, Vec<(Box<()>, AllSkipped)>);
 	#[cfg(feature = "bitvec-f")]
 	{
 		plain!(ctx, stream, f;
